@@ -10,6 +10,40 @@ BASELINE = ("cd /repo && /venv/bin/python -m pytest -ra -q -p no:cacheprovider -
 
 # id -> (category, technique, level text, level note, design ref)
 CHECKS = {
+    "C03": ("exploration",
+            "Hypothesis-generated editing histories (model-based, targeted failing pre-states) with the tree "
+            "well-formedness invariant evaluated after every step",
+            "Histories over a universe of attached/detached objects exercise every operation the property "
+            "lists, including refused ones; invariants I1-I5 (parent/child agreement, single membership, no "
+            "cycles, document = root of the parent chain, traversals terminate) are checked over the whole "
+            "universe after each step. Sampling of an unbounded history space: finds violations, never "
+            "proves absence.",
+            "Universe of <= 22 objects, names from {a,b,c}; merge/link steps only between unrelated Sections.",
+            "DESIGN.md section 5, C03"),
+    "C04": ("exploration",
+            "Hypothesis-generated editing histories with name/id invariants and a clash-prediction model",
+            "Same history engine as C03; after every step sibling names are unique, names are non-empty "
+            "str and ids canonical UUIDs; a step the harness model predicts to create a clash must raise; "
+            "ids from an enumerated table are passed at creation and to new_id.",
+            "Names assigned are str; attaching an object to the container it is already in is not a clash.",
+            "DESIGN.md section 5, C04"),
+    "C05": ("exploration",
+            "Hypothesis-generated value-editing histories with a type-conformance / normal-form oracle",
+            "Histories of constructor, values=, dtype=, append, extend, insert, item assignment, remove, "
+            "merge, clone (strict on/off) over inputs of every Python type the API accepts; after every step "
+            "conformance of each stored value to the dtype, refusal = ValueError + unchanged (values, dtype), "
+            "self-assignment and text round trip are identities.",
+            "Canonical dtype names and DType members only; indices are ints.",
+            "DESIGN.md section 5, C05"),
+    "C06": ("fault_enumeration",
+            "failure-biased Hypothesis histories + an enumerated scenario table, identity snapshot before == "
+            "after whenever a call raised",
+            "Every operation of C03-C05/C09 is driven into its failing pre-states (targeted steps and a "
+            "29-cell scenario table, each cell run on generated context documents in both tiers); whenever "
+            "the call raises, an identity snapshot of every object of the universe must be unchanged and no "
+            "new object may be reachable from the documents. The table of cells reached is in the evidence.",
+            "Content-level faults only; successful calls are unconstrained.",
+            "DESIGN.md section 5, C06 and Appendix B"),
     "C09": ("exploration",
             "exhaustive enumeration of the prescribed settings grid + Hypothesis-generated edit histories "
             "against an independent cardinality model",
